@@ -24,12 +24,15 @@ rm -f $WT/$DEST
 ( cd $WT && go test $PKG -count=1 2>&1 | grep -E "^(ok|FAIL|---)" >$OUT/pkgtests_with.txt ); 
 res "existing tests of $PKG with patch: $(grep -c '^--- FAIL' $OUT/pkgtests_with.txt) failing tests: $(grep '^--- FAIL' $OUT/pkgtests_with.txt | tr '\n' ' ')"
 git -C /repo worktree remove --force $WT
-# run the checks against the change in /repo itself
-cd /repo && git apply $OUT/patch.diff || { res "cannot apply to /repo"; exit 1; }
-cd /verif
+# run the checks against the change: in /repo itself with /verif, or (RR/RV set) in a private clean worktree of /repo
+# HEAD with a private copy of /verif, so that other runs against /repo are not disturbed
+RR=${RR:-/repo}; RV=${RV:-/verif}
+[ -z "$(git -C $RR status --short)" ] || { res "$RR not clean"; exit 1; }
+git -C $RR apply $OUT/patch.diff || { res "cannot apply to $RR"; exit 1; }
 for c in "$@"; do
-  o=$(./check $c --tier quick 2>&1 | grep -E "^(VIOLATION|OK|KNOWN|  )" | cut -c1-400)
-  res "check $c: $(echo "$o" | head -3 | tr '\n' '|')"
+  if [ "$RR" = /repo ]; then o=$(cd $RV && ./check $c --tier quick 2>&1 | grep -E "^(VIOLATION|OK|KNOWN|  )" | cut -c1-400)
+  else o=$(cd $RV && VERIF_REPO=$RR ./check $c --tier quick 2>&1 | grep -E "^(VIOLATION|OK|KNOWN|  )" | cut -c1-400); fi
+  res "check $c: $( (echo "$o" | grep -E "^(VIOLATION|OK)" | head -2; echo "$o" | grep -E "^  " | head -2; echo "known-findings-printed=$(echo "$o" | grep -c "^KNOWN")") | tr '\n' '|')"
 done
-git -C /repo checkout -- .
-git -C /repo status --short | head -3
+git -C $RR checkout -- .
+git -C $RR status --short | head -3
